@@ -214,30 +214,9 @@ def run(check: core.Check) -> None:
     )
     judge(check, cases, "tlc-exhaustive")
     # 3. beyond the exhaustive bound: TLC random simulation of the rich 3-file space
-    if True:
-        num = 300 if quick else 6000
-        sim = core.require_ok(
-            core.run_tlc(
-                "ConfigSim",
-                "Config.sim.cfg",
-                workers=1,
-                simulate=f"num={num}",
-                depth=8,
-                seed=check.seed + 1,
-                dump=False,
-                extra_files=None,
-                env={"SIM_OUT": "1"},
-                timeout=1200,
-            ),
-            "Config simulate",
-        )
-        check.add_tlc("simulate:Config.sim.cfg", sim)
-        sim_cases = core.emitted_json(sim)
-        uniq = {core.canon(c): c for c in sim_cases}
-        check.cov["simulated_cases"] = len(uniq)
-        if len(uniq) < num // 4:
-            raise core.MachineryError(f"simulation produced only {len(uniq)} distinct cases")
-        judge(check, list(uniq.values()), "tlc-simulate")
+    sim_cases = core.simulate_cases("ConfigSim", "Config.sim.cfg", 3000 if quick else 60000, depth=8,
+                                    seed=check.seed + 1, check=check)
+    judge(check, sim_cases, "tlc-simulate")
 
 
 def replay(check: core.Check, witness: dict) -> None:
